@@ -179,6 +179,7 @@ def step (st : DState2) (line : String) : DState2 × String :=
   | "unb64" :: args => (st, opKeys "unb64" args)
   | "lic" :: args => (st, opKeys "lic" args)
   | "loss" :: args => (st, opLoss args)
+  | "tdec" :: args => (st, opTdec args)
   | "stat" :: args => (st, opStat st.core args)
   | "sess" :: args => (st, opSess st.core args)
   | "csrc" :: args => (st, opCsrc args)
